@@ -64,10 +64,18 @@ def snap_visual(v):
         out["uv"] = None if v.uv is None else np.array(v.uv)
         mat = v.material
         out["material_type"] = type(mat).__name__
-        for k in ("diffuse", "ambient", "specular", "glossiness", "baseColorFactor", "metallicFactor", "roughnessFactor", "name"):
+        for k in ("diffuse", "ambient", "specular", "glossiness", "baseColorFactor", "metallicFactor", "roughnessFactor", "name",
+                  "emissiveFactor", "alphaMode", "alphaCutoff", "doubleSided"):
             if hasattr(mat, k):
                 val = getattr(mat, k)
-                out["mat_" + k] = np.array(val) if isinstance(val, (np.ndarray, list, tuple)) else val
+                out["mat_" + k] = np.array(val) if isinstance(val, (np.ndarray, list, tuple)) else canon(val)
+        for k in ("baseColorTexture", "emissiveTexture", "normalTexture", "occlusionTexture", "metallicRoughnessTexture"):
+            if getattr(mat, k, None) is not None:
+                out["mat_" + k] = np.asarray(getattr(mat, k)).copy()
+        try:
+            out["mat_hash"] = hash(mat)
+        except TypeError:
+            pass
         img = getattr(mat, "image", None)
         if img is not None:
             out["image"] = np.asarray(img).copy()
@@ -215,7 +223,8 @@ def build(spec):
             _ = m.visual.vertex_colors
             m.visual.face_colors[0] = [0, 255, 0, 255]
         elif vis == "pbr":
-            mat = trimesh.visual.material.PBRMaterial(baseColorFactor=[100, 150, 200, 255], metallicFactor=0.3, roughnessFactor=0.6)
+            kw = spec.get("pbr") or {"metallicFactor": 0.3, "roughnessFactor": 0.6}
+            mat = trimesh.visual.material.PBRMaterial(baseColorFactor=[100, 150, 200, 255], **kw)
             m.visual = trimesh.visual.TextureVisuals(uv=rs.rand(nv, 2), material=mat)
         m.face_attributes["tag"] = np.arange(nf) * 10
         m.vertex_attributes["w"] = np.arange(nv) * 0.5
@@ -373,7 +382,12 @@ def edits_for(o):
             E.append(("primitive.extents=", lambda p: setattr(p.primitive, "extents", np.array(p.primitive.extents) * 2.0)))
         if hasattr(o.primitive, "sections"):
             E.append(("primitive.sections=", lambda p: setattr(p.primitive, "sections", int(p.primitive.sections) + 3)))
+        if hasattr(o.primitive, "extents"):
+            E.append(("primitive.extents*=", lambda p: p.primitive.extents.__imul__(1.5)))
         E += [
+            ("primitive.transform[0,3]+=", lambda p: p.primitive.transform.__setitem__((0, 3), p.primitive.transform[0, 3] + 1.0)),
+            ("apply_transform(scale)", lambda p: p.apply_transform(trimesh.transformations.scale_matrix(2.0))),
+            ("apply_scale", lambda p: p.apply_scale(0.5)),
             ("primitive.transform=", lambda p: setattr(p.primitive, "transform", trimesh.transformations.translation_matrix([1, 2, 3]) @ np.array(p.primitive.transform))),
             ("apply_transform", lambda p: p.apply_transform(trimesh.transformations.rotation_matrix(0.4, [0, 1, 0], [1, 1, 1]))),
             ("metadata[nest][a].append", lambda p: p.metadata["nest"]["a"].append(7)),
@@ -551,7 +565,8 @@ def b_copy(case, ctx):
                     f"C17|shared_state|{kind}|edit={name}|seen_in={d[0].split('.')[0]}|how={'copy' if how.startswith('copy') and how != 'copy.copy' else how}",
                     f"{how}, edited the {case['edit']} with {names}: the other object changed at {d[:6]}",
                 )
-        ctx.note(nontrivial=nontrivial, cls=[f"kind:{kind}", f"how:{how}", f"edit_side:{case['edit']}"])
+        ctx.note(nontrivial=nontrivial, cls=[f"kind:{kind}", f"how:{how}", f"edit_side:{case['edit']}"] + [f"edit:{n}" for n in names if n.startswith("primitive.") and ("*=" in n or "+=" in n)]
+                 + (["visual:pbr_zero_factor"] if (case["spec"].get("pbr") or {}).get("metallicFactor") == 0.0 else []))
 
 
 # ----------------------------------------------------------------------------------- strategies
@@ -565,6 +580,17 @@ def spec(draw):
         s["mesh"] = draw(gmesh.mesh_spec(kinds=["tetra", "box", "octa", "prism"], max_parts=1, jitter=True))
         s["visual"] = draw(st.sampled_from([None, "face", "vertex", "texture", "pbr", "default_inplace", "default_inplace_face"]))
         s["density"] = draw(st.booleans())
+        if s["visual"] == "pbr":
+            # exact zeros, False and empty values are legitimate parameter values
+            s["pbr"] = {
+                "metallicFactor": draw(st.sampled_from([0.0, 0.3, 1.0])),
+                "roughnessFactor": draw(st.sampled_from([0.0, 0.6, 1.0])),
+                "alphaCutoff": draw(st.sampled_from([0.0, 0.5])),
+                "alphaMode": draw(st.sampled_from(["OPAQUE", "MASK", "BLEND"])),
+                "doubleSided": draw(st.booleans()),
+                "emissiveFactor": draw(st.sampled_from([[0.0, 0.0, 0.0], [0.5, 0.0, 1.0]])),
+                "name": draw(st.sampled_from(["", "mat"])),
+            }
     elif kind == "primitive":
         s["prim"] = draw(st.sampled_from(["Box", "Sphere", "Cylinder", "Capsule", "Extrusion"]))
         s["T"] = draw(gm.matrix(classes=["identity", "rigid", "translation"], tscale=3.0))["M"]
@@ -611,6 +637,8 @@ def grid_cases():
         {"kind": "mesh", "seed": 2, "warm": False, "mesh": {"parts": [{"kind": "octa"}]}, "visual": "vertex", "density": False},
         {"kind": "mesh", "seed": 3, "warm": True, "mesh": {"parts": [{"kind": "tetra"}]}, "visual": "texture", "density": False},
         {"kind": "mesh", "seed": 4, "warm": False, "mesh": {"parts": [{"kind": "tetra"}]}, "visual": "pbr", "density": False},
+        {"kind": "mesh", "seed": 7, "warm": False, "mesh": {"parts": [{"kind": "tetra"}]}, "visual": "pbr", "density": False,
+         "pbr": {"metallicFactor": 0.0, "roughnessFactor": 0.0, "alphaCutoff": 0.0, "alphaMode": "MASK", "doubleSided": False, "emissiveFactor": [0.0, 0.0, 0.0], "name": ""}},
         {"kind": "path", "seed": 1, "warm": True, "dim": 2, "colors": True, "vattr": True},
         {"kind": "path", "seed": 2, "warm": False, "dim": 3, "colors": False, "vattr": True},
         {"kind": "points", "seed": 1, "warm": False},
@@ -643,4 +671,4 @@ def s_hist(ctx):
     ctx.given("C17.copy", copy_case(), n={"quick": 1200, "thorough": 30000})
 
 
-REQUIRED_CLASSES["C17"] = ["kind:mesh", "kind:primitive:Cylinder", "kind:path", "kind:scene", "kind:voxel", "kind:points", "how:deepcopy", "how:copy.copy", "edit_side:original"]
+REQUIRED_CLASSES["C17"] = ["kind:mesh", "kind:primitive:Cylinder", "kind:path", "kind:scene", "kind:voxel", "kind:points", "how:deepcopy", "how:copy.copy", "edit_side:original", "edit:primitive.extents*=", "edit:primitive.transform[0,3]+=", "visual:pbr_zero_factor"]
